@@ -162,6 +162,29 @@ def check_valid(hyps, goal, timeout_ms=None):
 # --------------------------------------------------------------------------------------
 
 
+def has_quant(t, _cache={}):
+    """Does the term contain a quantifier (or a lambda)?"""
+    key = t.get_id()
+    r = _cache.get(key)
+    if r is None:
+        r = False
+        stack = [t]
+        seen = set()
+        while stack:
+            x = stack.pop()
+            if x.get_id() in seen:
+                continue
+            seen.add(x.get_id())
+            if z3.is_quantifier(x):
+                r = True
+                break
+            stack.extend(x.children())
+        if len(_cache) > 200000:
+            _cache.clear()
+        _cache[key] = r
+    return r
+
+
 class Ctx:
     """Execution context of one path.  Branching is resolved by a decision prefix; new
     alternatives are pushed on the explorer's work list (re-execution based forking)."""
@@ -172,8 +195,11 @@ class Ctx:
         self.pos = 0
         self.ledger = ledger
         self.pc = []  # list of z3 BoolRef
+        # feasibility is decided on the quantifier-free part of the path condition (fast, an over-approximation of
+        # feasibility, hence sound); harnesses that need quantified facts to prune paths set explorer.quant_feas
         self.solver = z3.Solver()
         self.solver.set("timeout", FEAS_TIMEOUT_MS)
+        self.qsolver = _SolverPair(self.solver, explorer.quant_feas)
         self.counter = {}
         self.trace = []  # ghost event trace
         self.notes = []  # free-form path notes
@@ -207,11 +233,10 @@ class Ctx:
         if z3.is_false(cond):
             raise PathAbort()
         self.pc.append(cond)
-        self.solver.add(cond)
+        self.qsolver.add(cond)
 
     def feasible(self, cond=None):
-        r = self.solver.check() if cond is None else self.solver.check(cond)
-        return r != z3.unsat  # unknown counts as feasible (sound: explores more)
+        return self.qsolver.feasible(cond)  # unknown counts as feasible (sound: explores more)
 
     def branch(self, cond) -> bool:
         """Decide a (possibly symbolic) condition on this path."""
@@ -241,7 +266,7 @@ class Ctx:
             self.pos += 1
         lit = cond if choice else z3.Not(cond)
         self.pc.append(lit)
-        self.solver.add(lit)
+        self.qsolver.add(lit)
         return choice
 
     def choose(self, n, label="choice") -> int:
@@ -272,7 +297,8 @@ class Ctx:
                     status = "discharged"
                 else:
                     s = z3.Solver()
-                    s.add(*self.pc)
+                    s.set("timeout", 2000)
+                    s.add(*[c for c in self.pc if not has_quant(c)])
                     if s.check() == z3.sat:
                         model = s.model()
         else:
@@ -293,22 +319,74 @@ class Ctx:
         self.ledger.record(full, kind, status, backend, secs, model=str(model)[:4000] if model is not None else None, detail=detail, witness=wit)
         if assume_after and status != "refuted" and not isinstance(goal, bool):
             self.pc.append(goal)
-            self.solver.add(goal)
+            self.qsolver.add(goal)
         return status
 
     def event(self, *ev):
         self.trace.append(tuple(ev))
 
 
+class _SolverPair:
+    """Quantifier-free solver (always) + full solver (only when the harness asks for quantified pruning)."""
+
+    def __init__(self, qf, use_full):
+        self.qf = qf
+        self.use_full = use_full
+        self.full = None
+        self.nquant = 0
+        if use_full:
+            self.full = z3.Solver()
+            self.full.set("timeout", FEAS_TIMEOUT_MS)
+
+    def add(self, f):
+        if has_quant(f):
+            self.nquant += 1
+        else:
+            self.qf.add(f)
+        if self.full is not None:
+            self.full.add(f)
+
+    def push(self):
+        self.qf.push()
+        if self.full is not None:
+            self.full.push()
+        self._saved = getattr(self, "_saved", []) + [self.nquant]
+
+    def pop(self):
+        self.qf.pop()
+        if self.full is not None:
+            self.full.pop()
+        self.nquant = self._saved.pop()
+
+    def entails(self, cond):
+        """Is `cond` implied by the (known part of the) path condition?"""
+        if self.qf.check(z3.Not(cond)) == z3.unsat:
+            return True
+        if self.full is not None and self.nquant:
+            return self.full.check(z3.Not(cond)) == z3.unsat
+        return False
+
+    def feasible(self, cond=None):
+        r = self.qf.check() if cond is None else self.qf.check(cond)
+        if r == z3.unsat:
+            return False
+        if self.full is None or self.nquant == 0:
+            return True
+        r = self.full.check() if cond is None else self.full.check(cond)
+        return r != z3.unsat
+
+
 class Explorer:
     """Enumerates all feasible paths of `run(ctx)` by depth-first re-execution."""
 
-    def __init__(self, target, ledger=None, max_paths=5000):
+    def __init__(self, target, ledger=None, max_paths=5000, quant_feas=False):
         self.target = target
+        self.quant_feas = quant_feas
         self.ledger = ledger or Ledger()
         self.work = [[]]
         self.max_paths = max_paths
         self.paths = 0
+        self.t0 = time.time()
 
     def push(self, decisions):
         self.work.append(decisions)
@@ -324,6 +402,8 @@ class Explorer:
                 continue
             self.paths += 1
             self.ledger.paths += 1
+            if os.environ.get("PYVC_PROGRESS") and self.paths % 50 == 0:
+                print(f"[explore] {self.target}: {self.paths} paths, {len(self.work)} pending, {time.time() - self.t0:.1f}s", flush=True)
             if self.paths > self.max_paths:
                 raise OutsideSubset(f"{self.target}: more than {self.max_paths} paths")
         return self.ledger
